@@ -127,7 +127,9 @@ func (g *sgen) stmt(d int) string {
 		g.nlab++
 		l := g.nlab
 		g.open = append(g.open, l)
-		body := g.stmts(d-1, g.r.Range(1, 4))
+		// the block starts with a call: a labelled block that does nothing (only dead code after
+		// "break L") as the arm of an if is outside the normal form (equal arms that are not jumps)
+		body := g.call() + "; " + g.stmts(d-1, g.r.Range(1, 4))
 		g.open = g.open[:len(g.open)-1]
 		return fmt.Sprintf("L%d: { %s }", l, body)
 	case 21, 22:
@@ -158,10 +160,54 @@ func (g *sgen) body(d int) string {
 	return s
 }
 
+// the statement sequences the mangler merges: equal jumps under consecutive ifs, an if
+// that returns / throws followed by a return / throw, a bare "if (a) return;" before more statements
+func (g *sgen) pattern() string {
+	jump := func() string {
+		switch g.r.Intn(5) {
+		case 0:
+			return "return;"
+		case 1:
+			return "return " + g.local() + ";"
+		case 2:
+			return "throw " + g.local() + ";"
+		case 3:
+			if len(g.open) > 0 {
+				return fmt.Sprintf("break L%d;", g.open[g.r.Intn(len(g.open))])
+			}
+			return "return;"
+		default:
+			return "return void 0;"
+		}
+	}
+	switch g.r.Intn(6) {
+	case 0:
+		j := jump()
+		s := fmt.Sprintf("if (%s) %s if (%s) %s", g.test(), j, g.test(), j)
+		if g.r.Bool() {
+			s += fmt.Sprintf(" if (%s) %s", g.test(), j)
+		}
+		return s
+	case 1:
+		return fmt.Sprintf("if (%s) return %s; return %s;", g.test(), g.value(), g.value())
+	case 2:
+		return fmt.Sprintf("if (%s) return %s; else if (%s) return %s; else return %s;", g.test(), g.value(), g.test(), g.value(), g.value())
+	case 3:
+		return fmt.Sprintf("if (%s) throw %s; %s; throw %s;", g.test(), g.value(), g.call(), g.value())
+	case 4:
+		return fmt.Sprintf("if (%s) return; %s; %s;", g.test(), g.call(), g.call())
+	default:
+		return fmt.Sprintf("if (%s) return %s; if (%s) return; %s; return %s;", g.test(), g.value(), g.test(), g.call(), g.value())
+	}
+}
+
 func (g *sgen) stmts(d int, n int) string {
 	var parts []string
 	for i := 0; i < n; i++ {
 		parts = append(parts, g.stmt(d))
+	}
+	if g.r.Chance(35) {
+		parts = append(parts, g.pattern())
 	}
 	return strings.Join(parts, " ")
 }
